@@ -428,6 +428,70 @@ def check_run_loop(fn):
     return handled
 
 
+# ---------------------------------------------------------------- terminate()
+# Obligation "the loop that shuts down ALL service access points (63..0, which includes access point 1, the
+# 'link terminated' marker that bind() tests) runs inside ONE critical section of self.lock": then a bind()
+# either comes before (its access point is shut down by the loop) or after (it sees sap[1] is None and
+# raises ESHUTDOWN).  Required shape of LogicalLinkController.terminate (anything else FAILS closed):
+#     <logging>
+#     try: <talk to the peer / device>            (no access to self.sap, no loop)
+#     finally:
+#         with self.lock:
+#             for i in range(63, -1, -1):
+#                 if not self.sap[i] is None:  <logging>; self.sap[i].shutdown(); self.sap[i] = None
+#         self.link.SHUTDOWN = True
+def check_terminate(fn):
+    def fail(msg):
+        raise SkelError('terminate: ' + msg)
+    body = [n for n in fn.body if not (isinstance(n, ast.Expr) and isinstance(n.value, ast.Constant)) and not is_log_call(n)]
+    if len(body) != 1 or not isinstance(body[0], ast.Try) or body[0].handlers or body[0].orelse or not body[0].finalbody:
+        fail('is not <logging>; try: ... finally: ...')
+    tr = body[0]
+    for n in tr.body:
+        for m in ast.walk(n):
+            if isinstance(m, (ast.For, ast.While, ast.With)) or dotted(m) == 'self.sap' or dotted(m) == 'self.lock':
+                fail('the try body touches self.sap / self.lock or loops')
+    fin = [n for n in tr.finalbody if not is_log_call(n)]
+    if len(fin) != 2:
+        fail('the finally clause is not `with self.lock: <loop>` followed by `self.link.SHUTDOWN = True`')
+    w, a = fin
+    if not (isinstance(w, ast.With) and len(w.items) == 1 and dotted(w.items[0].context_expr) == 'self.lock'):
+        fail('the loop over the access points is not inside one `with self.lock:` (found %s)' % type(w).__name__)
+    if not (isinstance(a, ast.Assign) and dotted(a.targets[0]) == 'self.link.SHUTDOWN'):
+        fail('no `self.link.SHUTDOWN = True` after the critical section')
+    wb = [n for n in w.body if not is_log_call(n)]
+    if len(wb) != 1 or not isinstance(wb[0], ast.For):
+        fail('the critical section is not exactly the loop over the access points')
+    f = wb[0]
+    it = f.iter
+    if not (isinstance(it, ast.Call) and dotted(it.func) == 'range' and len(it.args) == 3
+            and [ast.literal_eval(x) for x in it.args] == [63, -1, -1] and isinstance(f.target, ast.Name) and not f.orelse):
+        fail('the loop is not `for i in range(63, -1, -1)`')
+    v = f.target.id
+    fb = [n for n in f.body if not is_log_call(n)]
+    if len(fb) != 1 or not isinstance(fb[0], ast.If) or fb[0].orelse:
+        fail('loop body is not a single `if not self.sap[i] is None:`')
+    test = fb[0].test
+
+    def is_sap_i(e):
+        return isinstance(e, ast.Subscript) and dotted(e.value) == 'self.sap' and isinstance(e.slice, ast.Name) and e.slice.id == v
+    ok_test = (isinstance(test, ast.UnaryOp) and isinstance(test.op, ast.Not) and isinstance(test.operand, ast.Compare)
+               and is_sap_i(test.operand.left) and isinstance(test.operand.ops[0], ast.Is)) or \
+              (isinstance(test, ast.Compare) and is_sap_i(test.left) and isinstance(test.ops[0], ast.IsNot))
+    if not ok_test:
+        fail('unexpected test in the loop')
+    ib = [n for n in fb[0].body if not is_log_call(n)]
+    if len(ib) != 2:
+        fail('the access point is not shut down and cleared')
+    c, z = ib
+    if not (isinstance(c, ast.Expr) and isinstance(c.value, ast.Call) and isinstance(c.value.func, ast.Attribute)
+            and c.value.func.attr == 'shutdown' and is_sap_i(c.value.func.value) and not c.value.args):
+        fail('no self.sap[i].shutdown()')
+    if not (isinstance(z, ast.Assign) and is_sap_i(z.targets[0]) and isinstance(z.value, ast.Constant) and z.value.value is None):
+        fail('no self.sap[i] = None')
+    return ['with self.lock', 'for i in range(63,-1,-1)', 'self.sap[i].shutdown()', 'self.sap[i] = None', 'self.link.SHUTDOWN = True']
+
+
 SKIP_METHODS = {'__init__', '__str__', 'log', 'err'}
 # the blocking primitives of the base class are only reached through the subclass methods that wrap
 # them (inlined there); a subclass that does not override one of them does not offer it through the
@@ -501,6 +565,13 @@ def generate(repo_root):
     out.append('   exit of the try body is `return self.terminate(..)` or the while/else clause with terminate) *)')
     out.append('Definition run_loop_handled : list (string * list string) :=')
     out.append('  [' + ';\n   '.join(loops) + '].')
+    tfn = [n for n in llc_cls.body if isinstance(n, ast.FunctionDef) and n.name == 'terminate']
+    if len(tfn) != 1:
+        raise SkelError('method terminate not found')
+    shape_t = check_terminate(tfn[0])
+    out.append('')
+    out.append('(* terminate(): nesting of the final shutdown, outermost first (checked shape, see translate/skel_c09.py) *)')
+    out.append('Definition terminate_nesting : list string := [%s].' % '; '.join('"%s"' % x for x in shape_t))
     out.append('')
     out.append('Definition tco_skel : list (string * list cond * stmt) :=')
     out.append('  [' + ';\n   '.join('("%s", %s, %s)' % e for e in entries) + '].')
